@@ -439,10 +439,12 @@ func (c *Check) issueOrder() {
 		// per-iteration obligations
 		missing := map[string]bool{}
 		iterPaths := 0
+		anyWhole := false
 		for _, pa := range c.P.PathsOf(f) {
 			entered := false
 			got := map[string]bool{}
 			stored := map[string]bool{}
+			listTerm := ""
 			for _, ev := range pa.Events {
 				if ev.Kind == EvLoop && ev.Node == genEv.Loop {
 					entered = true
@@ -474,9 +476,33 @@ func (c *Check) issueOrder() {
 				}
 				if ev.Kind == EvAssign && ev.Val != nil && ev.Val.Op == "append" && len(ev.Val.A) == 2 && stored[ev.Val.A[1].String()] {
 					got["append request"] = true
+					if !ev.Val.A[1].ContainsOp(c.typesName("GenerateRequestID")) {
+						listTerm = ev.Val.String() // the list of request records (not the list of ids)
+					}
 				}
 			}
 			if entered {
+				// the list is announced whole, in one event emitted after the loop: an id's index is a position in that event
+				whole := 0
+				for _, ev := range pa.Events {
+					if ev.Kind == EvCall && (strings.HasSuffix(ev.CI.name, "EventManager.EmitEvents") || strings.HasSuffix(ev.CI.name, "EventManager.EmitEvent")) {
+						for _, a := range ev.CI.args {
+							if listTerm != "" && strings.Contains(a.String(), "(encoding/json.Marshal "+listTerm+")") {
+								if ev.Loop == nil {
+									whole++
+								} else {
+									whole += 2
+								}
+							}
+						}
+					}
+				}
+				if listTerm != "" && whole > 1 {
+					missing["the appended list is announced in pieces or more than once (an id's index is a position in one event)"] = true
+				}
+				if whole == 1 {
+					anyWhole = true
+				}
 				iterPaths++
 				for _, need := range []string{"Set 0x13", "Set 0x14", "Set 0x15", "append request"} {
 					if !got[need] {
@@ -484,6 +510,9 @@ func (c *Check) issueOrder() {
 					}
 				}
 			}
+		}
+		if iterPaths > 0 && !anyWhole {
+			missing["the appended list is not announced whole in one event after the loop"] = true
 		}
 		c.req(iterPaths > 0 && len(missing) == 0, "C18.7", construct+"#per-iteration", genEv.Pos,
 			fmt.Sprintf("every iteration over %s stores the request, both markers and appends it to the event list; missing: %v", shortTerm(list), sortedKeys(missing)))
